@@ -152,3 +152,107 @@ def run(ctx, rep) -> None:
             ready = [x.lineno for x in ast.walk(f.node) if isinstance(x, ast.Return) and "PredicatePhase.READY" in norm(x.value)]
             ok = ok and all(branch[0].lineno < l for l in ready)
         rep.check(ok, "C04.R4", f"{fn}: a fired join is never READY", "if join_fired: return NOT_READY on every path, before any READY return", f.file, branch[0].lineno if branch else f.node.lineno, disc=f"{fn}:fired")
+
+    # ---- R5: every finishing upstream triggers the join -----------------------------------------------------------------------------
+    # "Exactly once" also forbids ZERO starts. The arbitration between simultaneous upstreams is the downstream's own claim: every
+    # upstream that finishes pushes StartStage for every activated downstream, and the claim CAS lets one through. If an upstream
+    # decides, from a read of the join's OTHER upstreams taken before its own commit, that "the sibling will trigger it", two
+    # upstreams finishing together each see the other still RUNNING and nobody pushes.
+    rep.rule("C04.R5", "CompleteStage pushes StartStage for every activated downstream: the collection the pushing loop iterates over comes from the split logic / the downstream query only and is never narrowed by a function that reads the join's other upstreams")
+    READS_OTHERS = ("get_upstream_stages", "evaluate_readiness", "upstream_stages", "all_upstream_stages_complete")
+    cls = prog.cls("stabilize.handlers.complete_stage.handler", "CompleteStageHandler")
+    methods = {}
+    for c_ in [cls] + [prog.cls(b.module.name, b.name) for b in getattr(cls, "bases_resolved", [])]:
+        methods.update(c_.methods)
+    for m_ in prog.modules.values():
+        if m_.name.startswith("stabilize.handlers.complete_stage"):
+            for c_ in m_.classes.values():
+                for k_, v_ in c_.methods.items():
+                    methods.setdefault(k_, v_)
+    n5 = 0
+    seen_loops: set = set()
+    for mi in cls.methods.values():
+        fns_ = [x for x in ast.walk(mi.node) if isinstance(x, (ast.FunctionDef, ast.AsyncFunctionDef))]
+        for fn in sorted(fns_, key=lambda x: (x.end_lineno or x.lineno) - x.lineno):      # innermost first: a loop belongs to the innermost function
+            for loop in [x for x in ast.walk(fn) if isinstance(x, ast.For) and isinstance(x.target, ast.Name)]:
+                if id(loop) in seen_loops:
+                    continue
+                seen_loops.add(id(loop))
+                ctors = [c for c in ast.walk(loop) if isinstance(c, ast.Call) and isinstance(c.func, ast.Name) and c.func.id == "StartStage"
+                         and any(k.arg == "stage_id" and norm(k.value) == f"{loop.target.id}.id" for k in c.keywords)]
+                if not ctors:
+                    continue
+                it = loop.iter
+                chain = [norm(it)]
+                narrowed = None
+                for _ in range(4):
+                    if isinstance(it, ast.Name):
+                        pos = getattr(loop, "_ord", loop.lineno)
+                        defs = [a for a in ast.walk(fn) if isinstance(a, ast.Assign) and getattr(a, "_ord", a.lineno) < pos and any(
+                            (isinstance(t, ast.Name) and t.id == it.id) or (isinstance(t, ast.Tuple) and any(isinstance(e_, ast.Name) and e_.id == it.id for e_ in t.elts)) for t in a.targets)]
+                        if not defs:
+                            break
+                        it = max(defs, key=lambda a: getattr(a, "_ord", a.lineno)).value
+                        chain.append(norm(it)[:70])
+                        continue
+                    if isinstance(it, ast.Call) and isinstance(it.func, ast.Attribute) and norm(it.func.value) == "self" and it.func.attr in methods:
+                        body = methods[it.func.attr].node
+                        hits = sorted({c.func.attr for c in ast.walk(body) if isinstance(c, ast.Call) and isinstance(c.func, ast.Attribute) and c.func.attr in READS_OTHERS} |
+                                      {c.func.id for c in ast.walk(body) if isinstance(c, ast.Call) and isinstance(c.func, ast.Name) and c.func.id in READS_OTHERS})
+                        if hits:
+                            narrowed = (it.func.attr, hits)
+                            break
+                        # follow the first argument that is a collection being filtered
+                        nxt = next((a for a in it.args if isinstance(a, ast.Name)), None)
+                        if nxt is None:
+                            break
+                        it = nxt
+                        chain.append(norm(it))
+                        continue
+                    if isinstance(it, (ast.ListComp, ast.GeneratorExp)) and len(it.generators) == 1:
+                        g = it.generators[0]
+                        if any(isinstance(c, ast.Call) and ((isinstance(c.func, ast.Attribute) and c.func.attr in READS_OTHERS) or (isinstance(c.func, ast.Name) and c.func.id in READS_OTHERS)) for i_ in g.ifs for c in ast.walk(i_)):
+                            narrowed = ("comprehension filter", ["reads the other upstreams"])
+                            break
+                        it = g.iter
+                        chain.append(norm(it)[:70])
+                        continue
+                    break
+                n5 += 1
+                rep.check(narrowed is None, "C04.R5", f"{mi.qualname}: StartStage for every {chain[0]}", " <- ".join(chain) if narrowed is None else
+                          f"`{chain[0]}` is narrowed by {narrowed[0]} ({', '.join(narrowed[1])}): an upstream withholds the trigger because, in a read taken BEFORE its own commit, another upstream of the join was still active - "
+                          "two upstreams finishing together each leave it to the other and the join is never started", mi.file, loop.lineno, disc=f"trigger-all:{fn.name}:{loop.target.id}")
+    rep.floor("StartStage pushing loops in CompleteStage", n5, 2)
+
+    # ---- R6: the zombie re-claim cannot be taken while the original claimer is alive ---------------------------------------------------
+    # A RUNNING stage without tasks and synthetic children is re-planned ("zombie": the claimer died before planning). The same
+    # state is what a LIVE claimer leaves between its claim commit and its plan commit. A second StartStage read in that window
+    # re-claims RUNNING -> RUNNING (the CAS succeeds: only the version moved), plans too, and the original claimer plans as well;
+    # planning side effects that commit on their own (add_stage of builder-declared before-stages) are then duplicated.
+    rep.rule("C04.R6", "the zombie branch of _start_if_ready (re-plan a RUNNING stage) requires evidence that the first claimer is gone (age / lease / owner of the claim), not only the absence of tasks and synthetic stages")
+    sir = prog.func("stabilize.handlers.start_stage.handler", "StartStageHandler._start_if_ready").node
+    from ..dom import raw_conditions_at as _rca6
+    zomb = [a for a in ast.walk(sir) if isinstance(a, ast.Assign) and norm(a.targets[0]) == "claim_expected_phase" and isinstance(a.value, ast.Constant) and a.value.value == "RUNNING"]
+    if not zomb:
+        zomb = [k for k in ast.walk(sir) if isinstance(k, ast.keyword) and k.arg == "expected_phase" and isinstance(k.value, ast.Constant) and k.value.value == "RUNNING"]
+    if not zomb:
+        raise AnalysisError("_start_if_ready: the zombie (expected_phase RUNNING) claim was not found")
+    EVID = ("time", "age", "lease", "expire", "owner", "claimed_by", "heartbeat", "deadline")
+    # the "already RUNNING: ignore" returns; what separates them from the zombie fall-through are their non-status conditions
+    from ..dom import expand_locals as _xl6
+    from ..dom import conditions_at as _ca6
+    ignores = [r for r in ast.walk(sir) if isinstance(r, ast.Return) and r.value is None and ("stage.status == WorkflowStatus.RUNNING", True) in _ca6(sir, r)]
+    if not ignores:
+        raise AnalysisError("_start_if_ready: no 'already RUNNING - ignore' return found")
+    tests = []
+    for r in ignores:
+        for t, tr in _rca6(sir, r):
+            if "stage.status" in norm(t):
+                continue
+            tests.append(norm(_xl6(t, sir, 2)))
+    tests = sorted(set(tests))
+    import re as _re6
+    has_evidence = any(set(_re6.findall(r"[a-z]+", t.lower())) & {"time", "age", "lease", "expired", "expiry", "owner", "heartbeat", "deadline", "claimed", "elapsed", "stale"} for t in tests)
+    rep.check(has_evidence, "C04.R6", "zombie re-plan only with evidence that the first claimer is gone", "the RUNNING branch consults a time / lease / owner" if has_evidence else
+              f"the RUNNING branch decides on {tests[:3]} only: a StartStage read between the first claimer's claim commit and its plan commit sees the same state, re-claims RUNNING -> RUNNING and plans as well - "
+              "with a builder that declares before-stages two sets of synthetic stages are stored, one orphaned, and the stage's own task never runs", "src/stabilize/handlers/start_stage/handler.py", zomb[0].value.lineno if hasattr(zomb[0], "value") else sir.lineno, disc="zombie-live-claimer")
